@@ -31,7 +31,8 @@ type ev struct {
 type blockIn struct {
 	Round  int64   `json:"round"`
 	Events []ev    `json:"events,omitempty"`
-	Fields *fblock `json:"field_block,omitempty"` // a field block (fields.go) instead of an event list
+	Fields *fblock `json:"field_block,omitempty"`    // a field block (fields.go) instead of an event list
+	Ticket *thist  `json:"ticket_history,omitempty"` // a burn-ticket history through ProcessEvents (tickets.go)
 }
 
 var tagOf = map[string]event.EventTag{
@@ -392,7 +393,7 @@ func main() {
 	rep.Rule = "blocks of 1-20 events over 1-5 colliding indices: burn tickets (with the authorizer burn of the same transaction), bridge mints, stake lock/unlock, " +
 		"read pool locks, collected rewards, user overwrites, chain events, unique-address events, stats events without merger, non-stats events; amounts 1-1000 and " +
 		"edge values; real mergeEvents + real burn-ticket handler on an in-memory sqlite EventDb; field blocks: for every withEventMerge merger of the generated table (and the stake pool penalty tag) " +
-		"2-7 events of one tag over 1-3 identities, every field (scalars, delegate maps with 1-3 of 4 pools) zero/empty with probability 1/2, plus all zero/non-zero combinations directed; per identity, field and map key the merged data must sum to the events; busy blocks of 65-300 distinct identities per tag with repeats placed after the 64th/65th/128th/129th distinct identity and at the end; non-trivial = at least one bridge event, one additive event and two events sharing an index; distinct by event list"
+		"2-7 events of one tag over 1-3 identities, every field (scalars, delegate maps with 1-3 of 4 pools) zero/empty with probability 1/2, plus all zero/non-zero combinations directed; per identity, field and map key the merged data must sum to the events; burn-ticket histories of 2-5 blocks through the real EventDb.ProcessEvents (nonces count up per address, so (A,n) and (B,n) overlap within and across blocks; a quarter end with a block repeating a stored pair, which must be rejected): after every block the stored tickets of every address are exactly those emitted; busy blocks of 65-300 distinct identities per tag with repeats placed after the 64th/65th/128th/129th distinct identity and at the end; non-trivial = at least one bridge event, one additive event and two events sharing an index; distinct by event list"
 	sc.Init()
 	common.SetupRootContext(context.Background())
 	var err error
@@ -510,6 +511,65 @@ func main() {
 			rep.Violate(v.sig, v.desc, blockIn{Round: b.Round, Fields: &b2})
 		}
 	}
+	var tround int64 = 500000
+	handleTickets := func(h thist) {
+		res := runTickets(h, &tround)
+		rep.Count("ticket-history")
+		key, _ := json.Marshal(h)
+		rep.Case("tickets:"+string(key), len(h.Blocks) >= 2, blockIn{Ticket: &h})
+		for i := range res.blocks {
+			cf.Add(coqCase(res.blocks[i], res.outs[i]))
+			rep.CaseInputs = append(rep.CaseInputs, blockIn{Ticket: &h})
+		}
+		for _, v := range res.vs {
+			dupSig := false
+			for _, old := range rep.Violations {
+				dupSig = dupSig || old.Signature == v.sig
+			}
+			if dupSig {
+				continue
+			}
+			// shrink: drop blocks, then burns, while the signature stays
+			fails := func(h2 thist) bool {
+				if len(h2.Blocks) == 0 {
+					return false
+				}
+				for _, x := range runTickets(h2, &tround).vs {
+					if x.sig == v.sig {
+						return true
+					}
+				}
+				return false
+			}
+			type pos struct{ b, i int }
+			var all []pos
+			for b := range h.Blocks {
+				for i := range h.Blocks[b].Burns {
+					all = append(all, pos{b, i})
+				}
+			}
+			build := func(keep []int) thist {
+				h2 := thist{Blocks: make([]tblock, len(h.Blocks))}
+				for b := range h.Blocks {
+					h2.Blocks[b].Dup = h.Blocks[b].Dup
+				}
+				for _, k := range keep {
+					h2.Blocks[all[k].b].Burns = append(h2.Blocks[all[k].b].Burns, h.Blocks[all[k].b].Burns[all[k].i])
+				}
+				var nb []tblock
+				for _, b := range h2.Blocks {
+					if len(b.Burns) > 0 {
+						nb = append(nb, b)
+					}
+				}
+				h2.Blocks = nb
+				return h2
+			}
+			keep := vh.ShrinkIdx(len(all), func(keep []int) bool { return fails(build(keep)) })
+			hs := build(keep)
+			rep.Violate(v.sig, v.desc, blockIn{Ticket: &hs})
+		}
+	}
 	finish := func() {
 		files, err := cf.Write(o.Out, "C20")
 		must(err)
@@ -522,7 +582,9 @@ func main() {
 		if rb.Round == 0 {
 			rb.Round = 1
 		}
-		if rb.Fields != nil {
+		if rb.Ticket != nil {
+			handleTickets(*rb.Ticket)
+		} else if rb.Fields != nil {
 			rb.Fields.Round = rb.Round
 			handleFields(*rb.Fields)
 		} else {
@@ -547,6 +609,12 @@ func main() {
 	for i := 0; i < o.N(400, 6000); i++ {
 		handle(genBlock(rnd, round))
 		round++
+	}
+	// burn-ticket histories through the real ProcessEvents
+	trnd := vh.NewRand(o.Seed ^ 0x71c4)
+	handleTickets(thist{Blocks: []tblock{{Burns: []tburn{{1, 1, 100}}}, {Burns: []tburn{{1, 2, 200}, {2, 1, 300}}}, {Burns: []tburn{{2, 2, 400}, {2, 3, 500}}}}})
+	for i := 0; i < o.N(40, 600); i++ {
+		handleTickets(genTickets(trnd))
 	}
 	// every additive merger of the generated table, field by field
 	type target struct {
